@@ -7,6 +7,8 @@ import (
 	"go/types"
 	"sort"
 	"strings"
+	"sync"
+	"sync/atomic"
 	"time"
 
 	"golang.org/x/tools/go/ssa"
@@ -793,11 +795,18 @@ type cfgEntry struct {
 	states []*State
 }
 
+type pendingState struct {
+	rank int
+	key  string
+	st   *State
+}
+
 type Explorer struct {
-	e      *Engine
-	levels map[int]map[string]*cfgEntry
+	e       *Engine
+	levels  map[int]map[string]*cfgEntry
 	minRank int
 	maxRank int
+	local   *[]pendingState // worker mode: successors are collected here and inserted by the coordinator
 }
 
 func (e *Engine) addTrace(st *State, step string, id ThreadID) {
@@ -810,12 +819,20 @@ func (x *Explorer) add(st *State) {
 		return
 	}
 	r := st.rank()
+	k := x.e.configKey(st)
+	if x.local != nil {
+		*x.local = append(*x.local, pendingState{r, k, st})
+		return
+	}
+	x.insert(r, k, st)
+}
+
+func (x *Explorer) insert(r int, k string, st *State) {
 	lv := x.levels[r]
 	if lv == nil {
 		lv = map[string]*cfgEntry{}
 		x.levels[r] = lv
 	}
-	k := x.e.configKey(st)
 	en := lv[k]
 	if en == nil {
 		en = &cfgEntry{}
@@ -827,7 +844,29 @@ func (x *Explorer) add(st *State) {
 	}
 }
 
-// Explore runs the scheduler from st until all configurations are exhausted.
+func addStats(a *Stats, b Stats) {
+	a.Steps += b.Steps
+	a.Forks += b.Forks
+	a.Calls += b.Calls
+	a.BackEdges += b.BackEdges
+	a.Configs += b.Configs
+	a.Transitions += b.Transitions
+	a.Merges += b.Merges
+	a.Selectors += b.Selectors
+	a.Unmergeable += b.Unmergeable
+	a.Terminals += b.Terminals
+	a.Deadlocks += b.Deadlocks
+	a.Paths += b.Paths
+	a.Completed += b.Completed
+	a.Asserts += b.Asserts
+	a.AssertQueries += b.AssertQueries
+	a.IdenticalMerges += b.IdenticalMerges
+	a.MergedReleases += b.MergedReleases
+}
+
+// Explore runs the scheduler from st until all configurations are exhausted. Configurations of one rank are
+// independent of each other (every transition increases the rank), so a level is expanded by e.Workers
+// goroutines in parallel; their successors are inserted into the later levels by the coordinator.
 func (e *Engine) Explore(st *State) {
 	x := &Explorer{e: e, levels: map[int]map[string]*cfgEntry{}}
 	for _, s := range e.settle(st) {
@@ -848,29 +887,107 @@ func (e *Engine) Explore(st *State) {
 		if len(keys) > e.Stats.MaxFrontier {
 			e.Stats.MaxFrontier = len(keys)
 		}
-		for _, k := range keys {
-			en := lv[k]
-			e.Stats.Configs++
-			if e.Stats.Configs > e.MaxConfigs {
-				abort("UNWIND", "configuration bound %d exceeded", e.MaxConfigs)
+		e.Stats.Configs += len(keys)
+		if e.Stats.Configs > e.MaxConfigs {
+			abort("UNWIND", "configuration bound %d exceeded", e.MaxConfigs)
+		}
+		if !e.Deadline.IsZero() && time.Now().After(e.Deadline) {
+			abort("UNWIND", "time budget exceeded after %d configurations", e.Stats.Configs)
+		}
+		if e.Progress && time.Since(lastProg) > 5*time.Second {
+			lastProg = time.Now()
+			fmt.Fprintf(e.Log, "   .. rank %d/%d configs=%d trans=%d level=%d unmergeable=%d queries=%d solver=%.1fs terms=%d\n",
+				r, x.maxRank, e.Stats.Configs, e.Stats.Transitions, len(keys), e.Stats.Unmergeable,
+				e.Solver.Stats.Queries, e.Solver.Stats.Time.Seconds(), term.NumTerms())
+		}
+		workers := e.Workers
+		if e.MergeFull || len(keys) < 32 {
+			workers = 1
+		}
+		if workers <= 1 {
+			for _, k := range keys {
+				en := lv[k]
+				var sts []*State
+				if e.NoMerge {
+					sts = en.states
+				} else {
+					sts = e.mergeAll(en.states)
+				}
+				for _, s := range sts {
+					x.expand(s)
+				}
 			}
-			if e.Progress && time.Since(lastProg) > 5*time.Second {
-				lastProg = time.Now()
-				fmt.Fprintf(e.Log, "   .. rank %d/%d configs=%d trans=%d merges=%d unmergeable=%d queries=%d solver=%.1fs terms=%d\n",
-					r, x.maxRank, e.Stats.Configs, e.Stats.Transitions, e.Stats.Merges, e.Stats.Unmergeable,
-					e.Solver.Stats.Queries, e.Solver.Stats.Time.Seconds(), term.NumTerms())
+			continue
+		}
+		// parallel level
+		results := make([][]pendingState, workers)
+		wstats := make([]Stats, workers)
+		wfuncs := make([]map[*ssa.Function]bool, workers)
+		var next int64
+		var wg sync.WaitGroup
+		var failMu sync.Mutex
+		var failure interface{}
+		for w := 0; w < workers; w++ {
+			wg.Add(1)
+			go func(w int) {
+				defer wg.Done()
+				we := *e
+				we.Stats = Stats{}
+				we.inSession = false
+				we.localFuncs = map[*ssa.Function]bool{}
+				wx := &Explorer{e: &we, local: &results[w]}
+				defer func() {
+					wstats[w] = we.Stats
+					wfuncs[w] = we.localFuncs
+					if r := recover(); r != nil {
+						if we.inSession {
+							we.inSession = false
+							we.solverMu.Unlock()
+						}
+						failMu.Lock()
+						if failure == nil {
+							failure = r
+						}
+						failMu.Unlock()
+					}
+				}()
+				for {
+					i := int(atomic.AddInt64(&next, 1)) - 1
+					if i >= len(keys) {
+						return
+					}
+					failMu.Lock()
+					stop := failure != nil
+					failMu.Unlock()
+					if stop {
+						return
+					}
+					en := lv[keys[i]]
+					var sts []*State
+					if we.NoMerge {
+						sts = en.states
+					} else {
+						sts = we.mergeAll(en.states)
+					}
+					for _, s := range sts {
+						wx.expand(s)
+					}
+				}
+			}(w)
+		}
+		wg.Wait()
+		for w := 0; w < workers; w++ {
+			addStats(&e.Stats, wstats[w])
+			for f := range wfuncs[w] {
+				e.Funcs[f.String()] = true
 			}
-			if !e.Deadline.IsZero() && e.Stats.Configs%256 == 0 && time.Now().After(e.Deadline) {
-				abort("UNWIND", "time budget exceeded after %d configurations", e.Stats.Configs)
-			}
-			var sts []*State
-			if e.NoMerge {
-				sts = en.states
-			} else {
-				sts = e.mergeAll(en.states)
-			}
-			for _, s := range sts {
-				x.expand(s)
+		}
+		if failure != nil {
+			panic(failure)
+		}
+		for w := 0; w < workers; w++ {
+			for _, ps := range results[w] {
+				x.insert(ps.rank, ps.key, ps.st)
 			}
 		}
 	}
